@@ -52,7 +52,8 @@ CHECKS = {
     "C15": (True, "Exhaustive IR dependence rules over every generated kernel + Hypothesis scenarios under a call-site aliasing monitor with harness-owned permuted replay + bit-identity across drawn OpenMP thread counts",
             "Clause (a) enumerates all kernels generated in the run (exhaustive for that finite set); clause (b) inspects every "
             "kernel invocation of generated simulator/solver/filter/RK/interaction scenarios for output/input aliasing and replays "
-            "it cell by cell in different orders; clause (c) samples real thread counts {1,2,3,5,8,16}.", "3/C15", ""),
+            "it cell by cell in different orders; clause (c) samples real thread counts {1,2,3,5,8,16} (half of the cases spanning the "
+            "whole range) incl. two bodies coupled through the public interaction classes and the stable-step query.", "3/C15, 12", ""),
     "C11": (True, "Hypothesis-generated shapes/spacings/right-hand sides vs an independent discrete Neumann operator (residual + zero-mean oracle)",
             "Generated solver instances (2-D, 3-D scalar and vector) over shapes 2..24 (quick) / 2..64 (thorough): the returned "
             "field must be real, zero-mean and satisfy the independently coded Neumann finite-difference operator up to "
@@ -77,10 +78,10 @@ CHECKS = {
     "C06": (True, "Stratified Hypothesis over marker position classes (cell centres/faces +- ulps, clustered, duplicates) with moment-condition oracles on the real numba kernels",
             "Real support/weights/interpolation/spreading kernels driven as VirtualBoundaryForcing drives them; partition of unity, "
             "non-negativity, compact support, Peskin first moment, exact reproduction of constants/affine fields/the simulator's own "
-            "position_field; markers in the first/last admissible half cell of an axis, 640-marker sets, elongated grids.", "3/C06, 12", ""),
+            "position_field; markers in the first/last admissible half cell of an axis, 640-marker sets, elongated grids, dirty output buffers.", "3/C06, 12", ""),
     "C07": (True, "Stratified Hypothesis: adjointness/force/torque invariants between the real interpolation and spreading kernels + independent numpy delta-function reference for accumulation",
             "Adjoint identity, total force, Peskin first moment, and accumulation over pre-filled targets / overlapping supports / "
-            "repeated calls against an independent float64 reference.", "3/C07", ""),
+            "repeated calls against an independent float64 reference; interpolation into dirty (re-used) output buffers.", "3/C07, 12", ""),
     "C08": (True, "Stratified Hypothesis over all forcing-grid classes x generated poses/rods/forces: momentum, moment and power balance invariants; end-to-end balance through the real interaction classes; plus a libFuzzer (atheris) campaign per variant over the same generator and oracle, steered by branch coverage of the pure-Python repo modules",
             "Net force, net moment about a drawn point (nodal forces + lab-frame element couples) and power balance of "
             "transfer_forcing_from_grid_to_body for every grid class; fluid+body force balance through "
@@ -94,7 +95,9 @@ CHECKS = {
     "C10": (True, "Hypothesis stateful machine (evaluate / body forces / time_step / move / change flow / consume forcing; 1-3 bodies sharing one field) against a Python model of the PI law",
             "Model-based testing of call histories on real ImmersedBodyFlowInteraction / RigidBodyFlowInteraction objects: after "
             "every rule the marker force, integral, mismatch, time and the shared Eulerian field equal the model; flow velocity and "
-            "body state bit-identical; velocity view read-only.", "3/C10", ""),
+            "body state bit-identical; velocity view read-only. Marker kinematics of real rigid bodies are recomputed from the body "
+            "state (not taken from the grid the interaction drives); forcing clocks up to 1e9, float32 dt scalars, thread counts "
+            "handed to the interactions, bodies brought exactly to rest.", "3/C10, 12", ""),
     "C02": (True, "Hypothesis-generated physical parameters and resolution families vs closed-form Lamb-Oseen / Gaussian solutions; convergence order and error bounds calibrated on the unchanged tree",
             "Generated families of 3-5 resolutions (2-D: 32..128, 3-D: 16..48) integrated with the simulator's own stable time step "
             "to a common final time; relative L2 error against the analytic solution must decrease monotonically, show a "
